@@ -614,12 +614,31 @@ Proof.
   - intros H. exists x. split; [exact H | apply bytes_eqb_refl].
 Qed.
 
+(* no unsigned listed key has the same encoding as a key that has signed *)
+Definition no_clash (rows : list row) : Prop :=
+  forall k, In (k, None) rows -> ~ In (pub k) (solved_keys rows).
+
+Lemma no_clash_of_excl rows : ks = map fst rows -> no_clash rows.
+Proof.
+  intros Hks k Hk H.
+  apply solved_keys_in in H. destruct H as (k' & t' & Hin & E).
+  apply in_split in Hk. destruct Hk as (pre & r & ->).
+  apply in_app_or in Hin. destruct Hin as [Hin|[Hin|Hin]]; [|discriminate|].
+  - apply in_split in Hin. destruct Hin as (a & b & ->).
+    apply (pub_distinct (map fst a) k' (map fst b) k (map fst r)); [|now symmetry].
+    rewrite Hks, !map_app. cbn [map fst]. rewrite <- app_assoc. reflexivity.
+  - apply in_split in Hin. destruct Hin as (a & b & ->).
+    apply (pub_distinct (map fst pre) k (map fst a) k' (map fst b)); [|exact E].
+    rewrite Hks, map_app. cbn [map fst]. now rewrite map_app.
+Qed.
+
 Lemma sign_loop_rows cur : forall pre acc,
-  ks = map fst (pre ++ cur) ->
+  ks = map fst (pre ++ cur) -> no_clash (pre ++ cur) ->
   sign_loop hash160 sign sighash db wit sc ht m (denum (map (fun r => pub (fst r)) cur)) (solved_keys (pre ++ cur)) acc
   = Ret (acc ++ new_entries (m - length acc) cur).
 Proof.
-  induction cur as [|[k [t|]] r IH]; intros pre acc Hks.
+  clear Hexcl Hph Hsv Hparse.
+  induction cur as [|[k [t|]] r IH]; intros pre acc Hks Hnc.
   - cbn [map denum sign_loop new_entries]. now rewrite app_nil_r.
   - cbn [map denum sign_loop new_entries fst].
     replace (existsb (bytes_eqb (pub k)) (solved_keys (pre ++ (k, Some t) :: r))) with true.
@@ -628,14 +647,7 @@ Proof.
   - cbn [map denum sign_loop new_entries fst].
     replace (existsb (bytes_eqb (pub k)) (solved_keys (pre ++ (k, None) :: r))) with false.
     2:{ symmetry. apply not_true_iff_false. intros H. apply existsb_bytes_in in H.
-        apply solved_keys_in in H. destruct H as (k' & t' & Hin & E).
-        apply in_app_or in Hin. destruct Hin as [Hin|[Hin|Hin]]; [|discriminate|].
-        - apply in_split in Hin. destruct Hin as (a & b & ->).
-          apply (pub_distinct (map fst a) k' (map fst b) k (map fst r)); [|now symmetry].
-          rewrite Hks, !map_app. cbn [map fst]. rewrite <- app_assoc. reflexivity.
-        - apply in_split in Hin. destruct Hin as (a & b & ->).
-          apply (pub_distinct (map fst pre) k (map fst a) k' (map fst b)); [|exact E].
-          rewrite Hks, map_app. cbn [map fst]. now rewrite map_app. }
+        apply (Hnc k); [apply in_or_app; right; now left | exact H]. }
     rewrite map_length.
     destruct (m - length acc)%nat as [|b] eqn:Eb.
     + replace (m <=? length acc)%nat with true by lia. now rewrite app_nil_r.
@@ -646,11 +658,11 @@ Proof.
         destruct Hht as [Hlt Hd]. destruct (sighash wit ht sc) as [dg|] eqn:Ed; [|congruence].
         replace (256 <=? ht) with false by lia.
         specialize (IH (pre ++ [(k, None)]) (acc ++ [(Z.of_nat (length r), sign (fst k) dg ++ [n2b ht])])).
-        rewrite <- app_assoc in IH. cbn [app] in IH. rewrite IH by exact Hks.
+        rewrite <- app_assoc in IH. cbn [app] in IH. rewrite IH by assumption.
         rewrite app_length. cbn [length]. replace (m - (length acc + 1))%nat with b by lia.
         rewrite <- app_assoc. cbn [app]. unfold blob. now rewrite Ed.
       * specialize (IH (pre ++ [(k, None)]) acc). rewrite <- app_assoc in IH. cbn [app] in IH.
-        rewrite IH by exact Hks. now rewrite Eb.
+        rewrite IH by assumption. now rewrite Eb.
 Qed.
 
 Lemma dentries_bound rows : Forall (fun e => (0 <= fst e < Z.of_nat (length rows))%Z) (dentries rows).
@@ -690,15 +702,16 @@ Qed.
 Lemma real_sigs_length rows : length (real_sigs rows) = count rows.
 Proof using Type. clr. unfold real_sigs, count. apply map_length. Qed.
 
-Lemma signing_solver_from blobs rows : ks = map fst rows -> (count rows <= m)%nat ->
+Lemma signing_solver_from blobs rows : ks = map fst rows -> (count rows <= m)%nat -> no_clash rows ->
   find_sigs verifies sighash wit sc m (rev (map pub ks)) blobs 0 = (dentries rows, solved_keys rows) ->
   signing_solver hash160 verifies sign sighash db wit sc ht m (map pub ks) blobs
   = Ret (sig_items (fill (m - count rows) rows)).
 Proof.
-  intros Hks Hc Hfs. unfold signing_solver. rewrite Hfs.
+  clear Hexcl Hph Hsv Hparse.
+  intros Hks Hc Hnc Hfs. unfold signing_solver. rewrite Hfs.
   rewrite rev_enumerate_rev.
   replace (map pub ks) with (map (fun r : keyspec * option N => pub (fst r)) rows) by (rewrite Hks, map_map; reflexivity).
-  pose proof (sign_loop_rows rows [] (dentries rows)) as HL. cbn [app] in HL. rewrite HL by exact Hks. clear HL.
+  pose proof (sign_loop_rows rows [] (dentries rows)) as HL. cbn [app] in HL. rewrite HL by assumption. clear HL.
   fold (count rows).
   set (b := (m - count rows)%nat). set (rows' := fill b rows).
   assert (Hc' : count rows' = (count rows + length (new_entries b rows))%nat) by apply count_fill.
@@ -765,6 +778,32 @@ Qed.
 Lemma sig_items_length rows : (count rows <= m)%nat -> length (sig_items rows) = m.
 Proof using Type. clr. intros H. unfold sig_items. rewrite app_length, repeat_length, real_sigs_length. lia. Qed.
 
+(* all m signatures present: accepted; needs sign => verifies only *)
+Lemma eval_multisig_full rows clean :
+  ks = map fst rows -> rows_ok rows -> rows_enc_ok rows -> count rows = m ->
+  (1 <= m <= length ks)%nat -> (length ks <= 20)%nat ->
+  (forall k, In k ks -> pub_enc_ok fl wit (pub k) = true) ->
+  eval_multisig verifies sighash fl wit clean sc m (map pub ks) ([] :: sig_items rows) = true.
+Proof.
+  clear Hexcl Hph.
+  intros Hks Hok Henc Hc Hm Hn Hpub.
+  unfold eval_multisig. rewrite map_length. cbn [length]. rewrite sig_items_length by lia.
+  replace ((1 <=? m)%nat && (m <=? length ks)%nat && (length ks <=? 20)%nat && (m + 1 <=? S m)%nat) with true by lia.
+  replace (lenN ([] :: sig_items rows) + N.of_nat (length ks) + 2 <=? 1000) with true
+    by (unfold lenN; cbn [length]; rewrite sig_items_length by lia; lia).
+  replace (S m - (m + 1))%nat with 0%nat by lia. cbn [skipn firstn andb is_nil].
+  replace (if f_std fl then true else true) with true by (destruct (f_std fl); reflexivity).
+  replace (if clean then true else true) with true by (destruct clean; reflexivity).
+  rewrite andb_true_r. cbn [andb].
+  unfold sig_items. replace (m - count rows)%nat with 0%nat by lia. cbn [repeat]. rewrite app_nil_r.
+  apply cms_matchable.
+  - rewrite Forall_forall. intros x Hx. apply in_rev in Hx. apply real_sigs_in in Hx.
+    destruct Hx as (k & t & Hin & ->). now apply (Henc k t).
+  - rewrite Forall_forall. intros x Hx. apply in_rev in Hx. apply in_map_iff in Hx.
+    destruct Hx as (k & <- & Hk). now apply Hpub.
+  - rewrite Hks. now apply matchable_rows.
+Qed.
+
 Lemma eval_multisig_state rows clean :
   ks = map fst rows -> rows_ok rows -> rows_enc_ok rows -> (count rows <= m)%nat ->
   (1 <= m <= length ks)%nat -> (length ks <= 20)%nat ->
@@ -772,23 +811,17 @@ Lemma eval_multisig_state rows clean :
   eval_multisig verifies sighash fl wit clean sc m (map pub ks) ([] :: sig_items rows) = (count rows =? m)%nat.
 Proof.
   intros Hks Hok Henc Hc Hm Hn Hpub.
-  unfold eval_multisig. rewrite map_length. cbn [length]. rewrite sig_items_length by exact Hc.
-  replace ((1 <=? m)%nat && (m <=? length ks)%nat && (length ks <=? 20)%nat && (m + 1 <=? S m)%nat) with true by lia.
-  replace (lenN ([] :: sig_items rows) + N.of_nat (length ks) + 2 <=? 1000) with true
-    by (unfold lenN; cbn [length]; rewrite sig_items_length by exact Hc; lia).
-  replace (S m - (m + 1))%nat with 0%nat by lia. cbn [skipn firstn andb is_nil].
-  replace (if f_std fl then true else true) with true by (destruct (f_std fl); reflexivity).
-  replace (if clean then true else true) with true by (destruct clean; reflexivity).
-  rewrite andb_true_r. cbn [andb].
   destruct (count rows =? m)%nat eqn:E.
-  - unfold sig_items. replace (m - count rows)%nat with 0%nat by lia. cbn [repeat]. rewrite app_nil_r.
-    apply cms_matchable.
-    + rewrite Forall_forall. intros x Hx. apply in_rev in Hx. apply real_sigs_in in Hx.
-      destruct Hx as (k & t & Hin & ->). now apply (Henc k t).
-    + rewrite Forall_forall. intros x Hx. apply in_rev in Hx. apply in_map_iff in Hx.
-      destruct Hx as (k & <- & Hk). now apply Hpub.
-    + rewrite Hks. now apply matchable_rows.
-  - unfold sig_items. destruct (m - count rows)%nat as [|j] eqn:Ej; [lia|].
+  - apply eval_multisig_full; auto. lia.
+  - unfold eval_multisig. rewrite map_length. cbn [length]. rewrite sig_items_length by exact Hc.
+    replace ((1 <=? m)%nat && (m <=? length ks)%nat && (length ks <=? 20)%nat && (m + 1 <=? S m)%nat) with true by lia.
+    replace (lenN ([] :: sig_items rows) + N.of_nat (length ks) + 2 <=? 1000) with true
+      by (unfold lenN; cbn [length]; rewrite sig_items_length by exact Hc; lia).
+    replace (S m - (m + 1))%nat with 0%nat by lia. cbn [skipn firstn andb is_nil].
+    replace (if f_std fl then true else true) with true by (destruct (f_std fl); reflexivity).
+    replace (if clean then true else true) with true by (destruct clean; reflexivity).
+    rewrite andb_true_r. cbn [andb].
+    unfold sig_items. destruct (m - count rows)%nat as [|j] eqn:Ej; [lia|].
     rewrite rev_app_distr, rev_repeat. cbn [repeat app].
     apply cms_head_never. intros x Hx. apply in_rev in Hx. apply in_map_iff in Hx.
     destruct Hx as (k & <- & Hk). now apply sv_placeholder.
@@ -870,6 +903,17 @@ Record ms_ok (kd : kind) (m : nat) (ks : list keyspec) : Prop := {
           verifies (pub pub_of k) d (removelast gen_c05_placeholder) = false
 }.
 
+(* the part of ms_ok that is about sizes only *)
+Record ms_shape (kd : kind) (m : nat) (ks : list keyspec) : Prop := {
+  sh_kind : is_ms_kind kd;
+  sh_m : (1 <= m <= length ks)%nat;
+  sh_n : (length ks <= 20)%nat;
+  sh_520 : kd = K_P2SH_MS -> lenN (ms_of m ks) <= 520;
+  sh_10k : lenN (ms_of m ks) <= 10000
+}.
+Lemma ms_ok_shape kd m ks : ms_ok kd m ks -> ms_shape kd m ks.
+Proof. intros [H1 H2 H3 H4 H5 _ _]. now constructor. Qed.
+
 (* the redeem / witness scripts the caller must supply *)
 Definition p2sh_ok (kd : kind) (m : nat) (ks : list keyspec) (p2sh : list bytes) : Prop :=
   let ms := ms_of m ks in
@@ -933,19 +977,13 @@ Proof.
   change (lenN [ms_of m ks]) with 1 in H3. lia.
 Qed.
 
-Lemma eval_render fl kd m ks rows :
-  ms_ok kd m ks -> ks = map fst rows ->
-  rows_ok sighash (kwit kd) (ms_of m ks) rows -> rows_enc_ok sign sighash (kwit kd) (ms_of m ks) fl rows ->
-  (count sign sighash (kwit kd) (ms_of m ks) rows <= m)%nat ->
-  (forall k, In k ks -> pub_enc_ok fl (kwit kd) (pub pub_of k) = true) ->
+Lemma eval_render_reduce fl kd m ks rows :
+  ms_shape kd m ks -> (count sign sighash (kwit kd) (ms_of m ks) rows <= m)%nat ->
+  exists clean,
   eval_input hash160 sha256 verifies sighash fl (pz_ms kd m ks) (fst (render kd m ks rows)) (snd (render kd m ks rows))
-  = (count sign sighash (kwit kd) (ms_of m ks) rows =? m)%nat.
+  = eval_multisig verifies sighash fl (kwit kd) clean (ms_of m ks) m (keys_of ks) (items kd m ks rows).
 Proof.
-  intros [Hkd Hm Hn H520 H10k Hex Hph] Hks Hok Henc Hc Hpub.
-  assert (HE : forall clean, eval_multisig verifies sighash fl (kwit kd) clean (ms_of m ks) m (keys_of ks) (items kd m ks rows)
-               = (count sign sighash (kwit kd) (ms_of m ks) rows =? m)%nat).
-  { intros clean. unfold items. eapply (eval_multisig_state) with (hash160 := hash160) (db := []); eauto.
-    intros ? ? ? ? H; discriminate H. }
+  intros [Hkd Hm Hn H520 H10k] Hc.
   pose proof (items_small kd m ks rows) as Hsm.
   assert (Hsm520 : all_le_520 (items kd m ks rows) = true)
     by (apply all_le_520_forall; eapply Forall_le_weaken; [|exact Hsm]; lia).
@@ -953,13 +991,15 @@ Proof.
   unfold eval_input.
   destruct Hkd as [ -> | [ -> | [ -> | -> ] ] ]; cbn [render fst snd pz_ms pz_kind pz_m pz_keys kwit] in *.
   - (* bare *)
+    exists (f_std fl).
     assert (H1 : lenN (items K_MS m ks rows) <= 21) by (unfold lenN; rewrite items_length by exact Hc; lia).
     pose proof (lenN_pushes 73 _ ltac:(lia) Hsm) as H2.
     replace (10000 <? lenN (pushes (items K_MS m ks rows))) with false by lia.
     rewrite parse_pushes_pushes by (eapply Forall_le_weaken; [|exact Hsm]; lia).
     rewrite Hsm520. replace (1000 <? lenN (items K_MS m ks rows)) with false by lia.
-    rewrite andb_false_r. cbn [negb orb is_nil andb]. apply HE.
+    rewrite andb_false_r. cbn [negb orb is_nil andb]. reflexivity.
   - (* P2SH *)
+    exists (f_std fl).
     specialize (H520 eq_refl).
     destruct (items_sizes K_P2SH_MS m ks rows Hm20 H520 Hc) as (H1 & H2 & H3).
     replace (10000 <? lenN (pushes (items K_P2SH_MS m ks rows ++ [ms_of m ks]))) with false by lia.
@@ -969,14 +1009,16 @@ Proof.
     2:{ symmetry. apply all_le_520_forall. apply Forall_app. split; [eapply Forall_le_weaken; [|exact Hsm]; lia | repeat constructor; lia]. }
     replace (1000 <? lenN (items K_P2SH_MS m ks rows ++ [ms_of m ks])) with false by (rewrite lenN_app; change (lenN [ms_of m ks]) with 1; lia).
     rewrite andb_false_r. cbn [negb orb is_nil andb].
-    rewrite split_last_snoc, bytes_eqb_refl. cbn [andb]. apply HE.
+    rewrite split_last_snoc, bytes_eqb_refl. cbn [andb]. reflexivity.
   - (* P2WSH *)
+    exists true.
     change (10000 <? lenN (@nil byte)) with false. cbv iota. rewrite parse_pushes_nil.
     rewrite andb_false_r. cbn [negb orb all_le_520 forallb lenN length N.of_nat N.ltb N.compare expected_wit_script_sig pz_kind bytes_eqb andb].
     unfold eval_witness_part. cbn [pz_kind pz_m pz_keys].
     rewrite split_last_snoc, bytes_eqb_refl, Hsm520.
-    replace (lenN (ms_of m ks) <=? 10000) with true by lia. cbn [andb]. apply HE.
+    replace (lenN (ms_of m ks) <=? 10000) with true by lia. cbn [andb]. reflexivity.
   - (* P2SH-P2WSH *)
+    exists true.
     pose proof (wit0_sha_len (ms_of m ks)) as Hw.
     pose proof (push_data_length (wit0_script (sha256 (ms_of m ks))) ltac:(lia)) as Hp.
     assert (Hpp : pushes [wit0_script (sha256 (ms_of m ks))] = push_data (wit0_script (sha256 (ms_of m ks))))
@@ -990,6 +1032,864 @@ Proof.
     rewrite Hpp, bytes_eqb_refl. cbn [andb].
     unfold eval_witness_part. cbn [pz_kind pz_m pz_keys].
     rewrite split_last_snoc, bytes_eqb_refl, Hsm520.
-    replace (lenN (ms_of m ks) <=? 10000) with true by lia. cbn [andb]. apply HE.
+    replace (lenN (ms_of m ks) <=? 10000) with true by lia. cbn [andb]. reflexivity.
+Qed.
+
+Lemma eval_render fl kd m ks rows :
+  ms_ok kd m ks -> ks = map fst rows ->
+  rows_ok sighash (kwit kd) (ms_of m ks) rows -> rows_enc_ok sign sighash (kwit kd) (ms_of m ks) fl rows ->
+  (count sign sighash (kwit kd) (ms_of m ks) rows <= m)%nat ->
+  (forall k, In k ks -> pub_enc_ok fl (kwit kd) (pub pub_of k) = true) ->
+  eval_input hash160 sha256 verifies sighash fl (pz_ms kd m ks) (fst (render kd m ks rows)) (snd (render kd m ks rows))
+  = (count sign sighash (kwit kd) (ms_of m ks) rows =? m)%nat.
+Proof.
+  intros Hok Hks Hrok Henc Hc Hpub.
+  destruct (eval_render_reduce fl kd m ks rows (ms_ok_shape _ _ _ Hok) Hc) as (clean & ->).
+  destruct Hok as [Hkd Hm Hn H520 H10k Hex Hph].
+  unfold items. eapply (eval_multisig_state) with (hash160 := hash160) (db := []); eauto.
+  intros ? ? ? ? H; discriminate H.
+Qed.
+
+(* all signatures present: accepted (no hypothesis on other keys or on the placeholder) *)
+Lemma eval_render_full fl kd m ks rows :
+  ms_shape kd m ks -> ks = map fst rows ->
+  rows_ok sighash (kwit kd) (ms_of m ks) rows -> rows_enc_ok sign sighash (kwit kd) (ms_of m ks) fl rows ->
+  count sign sighash (kwit kd) (ms_of m ks) rows = m ->
+  (forall k, In k ks -> pub_enc_ok fl (kwit kd) (pub pub_of k) = true) ->
+  eval_input hash160 sha256 verifies sighash fl (pz_ms kd m ks) (fst (render kd m ks rows)) (snd (render kd m ks rows)) = true.
+Proof.
+  intros Hsh Hks Hrok Henc Hc Hpub.
+  destruct (eval_render_reduce fl kd m ks rows Hsh ltac:(lia)) as (clean & ->).
+  destruct Hsh as [Hkd Hm Hn H520 H10k].
+  unfold items. eapply (eval_multisig_full) with (hash160 := hash160) (db := []); eauto.
+  intros ? ? ? ? H; discriminate H.
+Qed.
+
+Definition db_ok (db : lookup) (ks : list keyspec) : Prop :=
+  forall k se c, In k ks -> lookup_get db (hash160 (pub pub_of k)) = Some (se, c) -> se = fst k.
+
+Notation FILL db ht kd m ks rows :=
+  (fill hash160 pub_of db ht (m - count sign sighash (kwit kd) (ms_of m ks) rows) rows).
+
+Lemma solve_generic kd m ks rows db ht p2sh s w blobs :
+  ms_shape kd m ks -> no_clash pub_of rows -> p2sh_ok kd m ks p2sh -> ks = map fst rows ->
+  (count sign sighash (kwit kd) (ms_of m ks) rows <= m)%nat ->
+  db_ok db ks -> ht_ok sighash (kwit kd) (ms_of m ks) ht ->
+  existing_blobs s w = Some blobs ->
+  find_sigs verifies sighash (kwit kd) (ms_of m ks) m (rev (keys_of ks)) blobs 0
+    = (dentries sign sighash (kwit kd) (ms_of m ks) rows, solved_keys pub_of rows) ->
+  solve_input hash160 sha256 verifies sign pub_of sighash db p2sh (pz_ms kd m ks) ht s w
+  = Solved (fst (render kd m ks (FILL db ht kd m ks rows)))
+           (if kwit kd then Some (snd (render kd m ks (FILL db ht kd m ks rows))) else None).
+Proof.
+  intros [Hkd Hm Hn H520 H10k] Hnc (Hp1 & Hp2 & Hp3) Hks Hc Hdb Hht Hblobs Hfs.
+  pose proof (signing_solver_from hash160 verifies sign pub_of sighash (kwit kd) (ms_of m ks) ks m db ht
+                Hdb Hht blobs rows Hks Hc Hnc Hfs) as HS.
+  unfold solve_input. rewrite Hblobs.
+  destruct Hkd as [ -> | [ -> | [ -> | -> ] ] ]; cbn [render fst snd pz_ms pz_kind pz_m pz_keys kwit items] in *.
+  - rewrite HS. reflexivity.
+  - rewrite (Hp1 eq_refl). specialize (H520 eq_refl). replace (520 <? lenN (ms_of m ks)) with false by lia.
+    rewrite HS. reflexivity.
+  - rewrite Hp2 by now left. rewrite HS. reflexivity.
+  - rewrite (Hp3 eq_refl). rewrite Hp2 by now right. rewrite HS. reflexivity.
+Qed.
+
+Lemma existing_render kd m ks rows : ms_shape kd m ks ->
+  (count sign sighash (kwit kd) (ms_of m ks) rows <= m)%nat ->
+  exists tail, existing_blobs (fst (render kd m ks rows)) (snd (render kd m ks rows)) = Some (items kd m ks rows ++ tail).
+Proof.
+  intros [Hkd Hm Hn H520 H10k] Hc.
+  pose proof (items_small kd m ks rows) as Hsm.
+  destruct Hkd as [ -> | [ -> | [ -> | -> ] ] ]; cbn [render fst snd kwit] in *; unfold existing_blobs.
+  - exists []. rewrite parse_pushes_pushes by (eapply Forall_le_weaken; [|exact Hsm]; lia). now rewrite app_nil_r.
+  - exists [ms_of m ks]. specialize (H520 eq_refl). rewrite parse_pushes_pushes; [reflexivity|].
+    apply Forall_app. split; [eapply Forall_le_weaken; [|exact Hsm]; lia | repeat constructor; lia].
+  - exists [ms_of m ks]. unfold items. reflexivity.
+  - exists [ms_of m ks]. unfold items. reflexivity.
+Qed.
+
+(* one signing pass on a state that is not valid yet *)
+Lemma sign_generic kd m ks rows db hto forkid p2sh s w blobs :
+  ms_shape kd m ks -> no_clash pub_of rows -> p2sh_ok kd m ks p2sh -> ks = map fst rows ->
+  (count sign sighash (kwit kd) (ms_of m ks) rows <= m)%nat ->
+  db_ok db ks -> ht_ok sighash (kwit kd) (ms_of m ks) (effective_hash_type forkid hto) ->
+  existing_blobs s w = Some blobs ->
+  find_sigs verifies sighash (kwit kd) (ms_of m ks) m (rev (keys_of ks)) blobs 0
+    = (dentries sign sighash (kwit kd) (ms_of m ks) rows, solved_keys pub_of rows) ->
+  (kwit kd = false -> w = []) ->
+  eval_input hash160 sha256 verifies sighash LAX (pz_ms kd m ks) s w = false ->
+  sign_input hash160 sha256 verifies sign pub_of sighash db p2sh forkid (pz_ms kd m ks) hto s w
+  = Ret (render kd m ks (FILL db (effective_hash_type forkid hto) kd m ks rows)).
+Proof.
+  intros Hok Hnc Hp Hks Hc Hdb Hht Hblobs Hfs Hw Hev.
+  unfold sign_input. rewrite Hev.
+  rewrite (solve_generic kd m ks rows db _ p2sh s w blobs Hok Hnc Hp Hks Hc Hdb Hht Hblobs Hfs).
+  destruct Hok as [Hkd _ _ _ _].
+  destruct Hkd as [ -> | [ -> | [ -> | -> ] ] ]; cbn [kwit] in *; try rewrite (Hw eq_refl); cbn [render fst snd]; reflexivity.
+Qed.
+
+(* ---- counting: which keys have signed / have been supplied ------------------------------------------ *)
+Definition is_signed (r : row) : bool := match snd r with Some _ => true | None => false end.
+Definition ctrue (l : list bool) : nat := length (filter (fun b : bool => b) l).
+
+Lemma count_ctrue w sc rows : count sign sighash w sc rows = ctrue (map is_signed rows).
+Proof.
+  unfold count, ctrue. induction rows as [|[k [t|]] r IH]; cbn [dentries map is_signed snd filter length]; auto.
+Qed.
+
+Section OnePass.
+Variable db : lookup.
+Variable ht : N.
+Notation AV := (avail hash160 pub_of db).
+Definition umask (rows : list row) : list bool := map (fun r => is_signed r || AV (fst r)) rows.
+
+Lemma ctrue_le_umask rows : (ctrue (map is_signed rows) <= ctrue (umask rows))%nat.
+Proof.
+  unfold ctrue, umask. induction rows as [|[k [t|]] r IH]; cbn [map is_signed snd fst orb filter length]; try lia.
+  destruct (AV k); cbn [filter length]; lia.
+Qed.
+
+Lemma umask_eq rows : (ctrue (umask rows) <= ctrue (map is_signed rows))%nat -> map is_signed rows = umask rows.
+Proof.
+  unfold umask. induction rows as [|[k [t|]] r IH]; cbn [map is_signed snd fst orb]; [reflexivity| |].
+  - unfold ctrue. cbn [filter length]. intros H. f_equal. apply IH. unfold ctrue. lia.
+  - pose proof (ctrue_le_umask r) as Hle. unfold umask in Hle.
+    destruct (AV k); unfold ctrue in *; cbn [filter length]; intros H; [lia|]. f_equal. apply IH. unfold ctrue. lia.
+Qed.
+
+Lemma fill_masks rows : forall b,
+  let S' := map is_signed (fill hash160 pub_of db ht b rows) in
+  ((ctrue (umask rows) - ctrue (map is_signed rows) <= b)%nat -> S' = umask rows) /\
+  ((b <= ctrue (umask rows) - ctrue (map is_signed rows))%nat -> ctrue S' = (ctrue (map is_signed rows) + b)%nat).
+Proof.
+  induction rows as [|[k [t|]] r IH]; intros b; cbn zeta.
+  - cbn. split; intros; [reflexivity|lia].
+  - cbn [fill map is_signed snd fst orb umask]. fold (umask r).
+    destruct (IH b) as [I1 I2]. cbn zeta in I1, I2.
+    unfold ctrue in *. cbn [filter length]. split; intros H.
+    + f_equal. apply I1. lia.
+    + rewrite I2 by lia. lia.
+  - pose proof (ctrue_le_umask r) as Hle.
+    cbn [fill umask map is_signed snd fst orb]. fold (umask r).
+    destruct b as [|b].
+    + split; intros H.
+      * apply (umask_eq ((k, None) :: r)). unfold umask. cbn [map is_signed snd fst orb]. fold (umask r).
+        unfold ctrue in *. cbn [map is_signed snd filter length] in *. lia.
+      * cbn [map is_signed snd]. lia.
+    + destruct (AV k) eqn:Ea.
+      * destruct (IH b) as [I1 I2]. cbn zeta in I1, I2.
+        cbn [map is_signed snd]. unfold ctrue in *. cbn [filter length]. split; intros H.
+        -- f_equal. apply I1. lia.
+        -- rewrite I2 by lia. lia.
+      * destruct (IH (S b)) as [I1 I2]. cbn zeta in I1, I2.
+        cbn [map is_signed snd]. unfold ctrue in *. cbn [filter length]. split; intros H.
+        -- f_equal. apply I1. lia.
+        -- rewrite I2 by lia. lia.
+Qed.
+End OnePass.
+
+Lemma eval_empty fl kd m ks : ms_shape kd m ks ->
+  eval_input hash160 sha256 verifies sighash fl (pz_ms kd m ks) [] [] = false.
+Proof.
+  intros [Hkd Hm Hn H520 H10k].
+  unfold eval_input. change (10000 <? lenN (@nil byte)) with false. cbv iota. rewrite parse_pushes_nil.
+  rewrite andb_false_r. cbn [negb orb all_le_520 forallb lenN length N.of_nat N.ltb N.compare].
+  destruct Hkd as [ -> | [ -> | [ -> | -> ] ] ]; cbn [pz_ms pz_kind pz_m pz_keys is_nil andb].
+  - unfold eval_multisig. cbn [length]. replace (m + 1 <=? 0)%nat with false by lia. now rewrite !andb_false_r.
+  - reflexivity.
+  - unfold expected_wit_script_sig, eval_witness_part. cbn [pz_ms pz_kind pz_m pz_keys bytes_eqb andb]. reflexivity.
+  - unfold expected_wit_script_sig. cbn [pz_ms pz_kind pz_m pz_keys].
+    pose proof (push_data_nonempty (wit0_script (sha256 (ms_script m (keys_of ks))))) as Hne.
+    destruct (push_data (wit0_script (sha256 (ms_script m (keys_of ks))))); [cbn in Hne; lia|reflexivity].
+Qed.
+
+Lemma fill_forall (P : N -> Prop) db ht b rows : P ht ->
+  (forall k t, In (k, Some t) rows -> P t) -> (forall k t, In (k, Some t) (fill hash160 pub_of db ht b rows) -> P t).
+Proof.
+  intros Hht. revert b; induction rows as [|[k [t|]] r IH]; intros b Hok; cbn [fill]; auto.
+  - intros k' t' [H|H]; [apply (Hok k' t'); now left|]. apply (IH b) in H; [exact H|]. intros ? ? ?; eapply Hok; right; eauto.
+  - assert (Hr : forall k t, In (k, Some t) r -> P t) by (intros ? ? ?; eapply Hok; right; eauto).
+    destruct b; [exact Hok|]. destruct (avail hash160 pub_of db k).
+    + intros k' t' [H|H]; [injection H as <- <-; exact Hht | now apply (IH b Hr k' t')].
+    + intros k' t' [H|H]; [discriminate | now apply (IH (S b) Hr k' t')].
+Qed.
+
+Lemma umask_all_avail db (l : list keyspec) : (forall k, In k l -> avail hash160 pub_of db k = true) ->
+  ctrue (umask db (map (fun k => (k, None)) l)) = length l.
+Proof.
+  unfold ctrue, umask. induction l as [|k l IH]; intros H; cbn [map is_signed snd fst orb filter length]; [reflexivity|].
+  rewrite (H k) by now left. cbn [filter length]. f_equal. apply IH. intros; apply H; now right.
+Qed.
+
+Lemma rows0_gen (l : list keyspec) w sc :
+  let r0 : list row := map (fun k => (k, None)) l in
+  l = map fst r0 /\ dentries sign sighash w sc r0 = [] /\ solved_keys pub_of r0 = [] /\
+  (forall k t, ~ In (k, Some t) r0) /\ (forall r, In r r0 -> is_signed r = false).
+Proof.
+  cbn zeta. induction l as [|k l IH]; cbn [map fst dentries solved_keys].
+  - repeat split; auto; intros ? [].
+  - destruct IH as (I1 & I2 & I3 & I4 & I5). repeat split; auto.
+    + now f_equal.
+    + intros k' t' [H|H]; [discriminate | now apply (I4 k' t')].
+    + intros r [<-|H]; [reflexivity | now apply I5].
+Qed.
+
+(* ---- sequences of signing passes ------------------------------------------------------------------- *)
+Record pass : Type := mkPass { p_db : lookup; p_ht : option N }.
+
+Section Passes.
+Variable forkid : bool.
+Variable p2sh : list bytes.
+Variable kd : kind.
+Variable m : nat.
+Variable ks : list keyspec.
+Variable fl0 : flags.                       (* the flag set of the final verdict *)
+Notation W := (kwit kd).
+Notation MS := (ms_of m ks).
+Notation PZ := (pz_ms kd m ks).
+Notation CNT := (count sign sighash W MS).
+
+Fixpoint run (passes : list pass) (st : bytes * list bytes) : outcome (bytes * list bytes) :=
+  match passes with
+  | [] => Ret st
+  | p :: r =>
+    match sign_input hash160 sha256 verifies sign pub_of sighash (p_db p) p2sh forkid PZ (p_ht p) (fst st) (snd st) with
+    | Ret st' => run r st'
+    | Raise e => Raise e
+    | OutOfFuel => OutOfFuel
+    end
+  end.
+
+Definition covered (passes : list pass) (k : keyspec) : bool :=
+  existsb (fun p => avail hash160 pub_of (p_db p) k) passes.
+Definition ncovered (passes : list pass) : nat := length (filter (covered passes) ks).
+
+(* hash types whose signatures pass the encoding rules of fl0 *)
+Definition enc_ht_ok (t : N) : Prop :=
+  f_std fl0 = true -> f_strictenc fl0 = true -> In t [1; 2; 3; 129; 130; 131].
+Definition PH (t : N) : Prop := ht_ok sighash W MS t /\ enc_ht_ok t.
+Definition pass_ok (p : pass) : Prop := db_ok (p_db p) ks /\ PH (effective_hash_type forkid (p_ht p)).
+Definition rows_P (rows : list row) : Prop := forall k t, In (k, Some t) rows -> PH t.
+
+Hypothesis Hms : ms_ok kd m ks.
+Hypothesis Hp2sh : p2sh_ok kd m ks p2sh.
+Hypothesis Hpub0 : forall k, In k ks -> pub_enc_ok fl0 W (pub pub_of k) = true.
+
+Lemma fill_P db ht b rows : PH ht -> rows_P rows -> rows_P (fill hash160 pub_of db ht b rows).
+Proof.
+  intros Hht. revert b; induction rows as [|[k [t|]] r IH]; intros b Hok; cbn [fill]; auto.
+  - intros k' t' [H|H]; [apply (Hok k' t'); now left|]. apply (IH b) in H; [exact H|]. intros ? ? ?; eapply Hok; right; eauto.
+  - assert (Hr : rows_P r) by (intros ? ? ?; eapply Hok; right; eauto).
+    destruct b; [exact Hok|]. destruct (avail hash160 pub_of db k).
+    + intros k' t' [H|H]; [injection H as <- <-; exact Hht | now apply (IH b Hr k' t')].
+    + intros k' t' [H|H]; [discriminate | now apply (IH (S b) Hr k' t')].
+Qed.
+
+Lemma rows_P_ok rows : rows_P rows -> rows_ok sighash W MS rows.
+Proof. intros H k t Hin. now destruct (H k t Hin). Qed.
+
+Lemma sig_enc_ok_nonempty fl s : s <> [] -> sig_enc_ok fl s =
+  if f_std fl then strict_der s && low_s s && (if f_strictenc fl then defined_hashtype s else true) else true.
+Proof. destruct s; [congruence|reflexivity]. Qed.
+
+Lemma sig_enc_blob fl k t : ht_ok sighash W MS t ->
+  (f_std fl = true -> f_strictenc fl = true -> In t [1; 2; 3; 129; 130; 131]) ->
+  sig_enc_ok fl (blob sign sighash W MS k t) = true.
+Proof.
+  intros Hok Henc. destruct (blob_ok sign sighash W MS Hparse k t Hok) as (d & Hd & Hb & Hty & Hrl & Hp).
+  rewrite sig_enc_ok_nonempty by (rewrite Hb; destruct (sign (fst k) d); discriminate).
+  destruct (f_std fl) eqn:Es; [|reflexivity].
+  rewrite Hb. destruct (Hcanon (fst k) d (n2b t)) as [-> ->]. cbn [andb].
+  destruct (f_strictenc fl) eqn:Ee; [|reflexivity].
+  rewrite <- Hb. unfold defined_hashtype. rewrite Hty.
+  specialize (Henc eq_refl eq_refl). cbn [In] in Henc.
+  destruct Henc as [<-|[<-|[<-|[<-|[<-|[<-|[]]]]]]]; reflexivity.
+Qed.
+
+Lemma rows_P_enc rows : rows_P rows -> rows_enc_ok sign sighash W MS fl0 rows.
+Proof. intros H k t Hin. destruct (H k t Hin) as [H1 H2]. now apply sig_enc_blob. Qed.
+
+Lemma rows_ok_enc_lax rows : rows_ok sighash W MS rows -> rows_enc_ok sign sighash W MS LAX rows.
+Proof. intros H k t Hin. apply sig_enc_blob; [now apply (H k t)|discriminate]. Qed.
+
+(* a concrete (scriptSig, witness) standing for the abstract state rows *)
+Record Repr (rows : list row) (st : bytes * list bytes) : Prop := {
+  rp_blobs : exists blobs, existing_blobs (fst st) (snd st) = Some blobs /\
+             find_sigs verifies sighash W MS m (rev (keys_of ks)) blobs 0
+             = (dentries sign sighash W MS rows, solved_keys pub_of rows);
+  rp_wit : W = false -> snd st = [];
+  rp_eval : forall fl, rows_enc_ok sign sighash W MS fl rows ->
+            (forall k, In k ks -> pub_enc_ok fl W (pub pub_of k) = true) ->
+            eval_input hash160 sha256 verifies sighash fl PZ (fst st) (snd st) = (CNT rows =? m)%nat
+}.
+
+Lemma repr_render rows : ks = map fst rows -> rows_ok sighash W MS rows -> (CNT rows <= m)%nat ->
+  Repr rows (render kd m ks rows).
+Proof.
+  intros Hks Hok Hc. destruct Hms as [Hkd Hm Hn H520 H10k Hex Hph] eqn:Em. constructor.
+  - destruct (existing_render kd m ks rows (ms_ok_shape _ _ _ Hms) Hc) as (tail & Ht). eexists. split; [exact Ht|].
+    unfold items. cbn [app]. eapply find_sigs_state; eauto.
+  - clear Em. intros Hw. destruct Hkd as [ -> | [ -> | [ -> | -> ] ] ]; try discriminate; reflexivity.
+  - intros fl Henc Hpub. now apply eval_render.
+Qed.
+
+Definition rows0 : list row := map (fun k => (k, None)) ks.
+
+Lemma rows0_facts : ks = map fst rows0 /\ dentries sign sighash W MS rows0 = [] /\ solved_keys pub_of rows0 = [] /\
+  CNT rows0 = 0%nat /\ rows_P rows0 /\ (forall r, In r rows0 -> is_signed r = false).
+Proof.
+  destruct (rows0_gen ks W MS) as (I1 & I2 & I3 & I4 & I5). fold rows0 in I1, I2, I3, I4, I5.
+  split; [exact I1|]. split; [exact I2|]. split; [exact I3|]. split; [unfold count; now rewrite I2|].
+  split; [|exact I5]. intros k0 t0 Hin. now destruct (I4 k0 t0).
+Qed.
+
+Lemma repr_empty : Repr rows0 ([], []).
+Proof.
+  destruct rows0_facts as (I1 & I2 & I3 & I4 & I5 & I6).
+  constructor; cbn [fst snd].
+  - exists []. split; [reflexivity|]. now rewrite I2, I3.
+  - reflexivity.
+  - intros fl _ _. rewrite I4. destruct Hms as [Hkd Hm Hn H520 H10k Hex Hph] eqn:Em. replace (0 =? m)%nat with false by lia.
+    apply eval_empty. now apply ms_ok_shape.
+Qed.
+
+Lemma covered_snoc done p k : covered (done ++ [p]) k = covered done k || avail hash160 pub_of (p_db p) k.
+Proof. unfold covered. rewrite existsb_app. cbn [existsb]. now rewrite orb_false_r. Qed.
+
+Lemma filter_length_ctrue {A} (f : A -> bool) l : length (filter f l) = ctrue (map f l).
+Proof. unfold ctrue. induction l as [|x l IH]; cbn [filter map length]; [reflexivity|]. destruct (f x); cbn [length]; lia. Qed.
+
+Lemma filter_length_mono {A} (f g : A -> bool) l : (forall x, f x = true -> g x = true) ->
+  (length (filter f l) <= length (filter g l))%nat.
+Proof.
+  intros H. induction l as [|x l IH]; cbn [filter]; [lia|].
+  destruct (f x) eqn:Ef; [rewrite (H x Ef); cbn [length]; lia|]. destruct (g x); cbn [length]; lia.
+Qed.
+
+Definition Inv (rows : list row) (done : list pass) : Prop :=
+  ((forall r, In r rows -> is_signed r = covered done (fst r)) /\ (CNT rows < m)%nat) \/
+  (CNT rows = m /\ (m <= ncovered done)%nat).
+
+Lemma phase1_count rows done : ks = map fst rows -> (forall r, In r rows -> is_signed r = covered done (fst r)) ->
+  CNT rows = ncovered done.
+Proof.
+  intros Hks H. rewrite count_ctrue. unfold ncovered. rewrite filter_length_ctrue, Hks, map_map.
+  f_equal. now apply map_ext_in.
+Qed.
+
+Lemma inv_verdict rows done : ks = map fst rows -> Inv rows done -> ((CNT rows =? m)%nat = true <-> (m <= ncovered done)%nat).
+Proof.
+  intros Hks [[H1 H2]|[H1 H2]].
+  - rewrite <- (phase1_count rows done Hks H1). split; intros; lia.
+  - split; intros; lia.
+Qed.
+
+Lemma step rows st done p :
+  Repr rows st -> ks = map fst rows -> rows_P rows -> (CNT rows <= m)%nat -> Inv rows done -> pass_ok p ->
+  exists rows' st',
+    sign_input hash160 sha256 verifies sign pub_of sighash (p_db p) p2sh forkid PZ (p_ht p) (fst st) (snd st) = Ret st' /\
+    Repr rows' st' /\ ks = map fst rows' /\ rows_P rows' /\ (CNT rows' <= m)%nat /\ Inv rows' (done ++ [p]).
+Proof.
+  intros [(blobs & Hb1 & Hb2) Hw Hev] Hks HP Hc HI [Hdb Hht].
+  pose proof (rows_P_ok rows HP) as Hok.
+  assert (HevL : eval_input hash160 sha256 verifies sighash LAX PZ (fst st) (snd st) = (CNT rows =? m)%nat).
+  { apply Hev; [now apply rows_ok_enc_lax | reflexivity]. }
+  destruct HI as [[H1 H2]|[H1 H2]].
+  - (* not yet valid: the pass signs *)
+    set (ht := effective_hash_type forkid (p_ht p)) in *.
+    set (rows' := fill hash160 pub_of (p_db p) ht (m - CNT rows) rows).
+    exists rows', (render kd m ks rows').
+    assert (Hks' : ks = map fst rows') by (unfold rows'; now rewrite fill_fst).
+    assert (HP' : rows_P rows') by (apply fill_P; assumption).
+    pose proof (fill_masks (p_db p) ht rows (m - CNT rows)) as [F1 F2]. cbn zeta in F1, F2. fold rows' in F1, F2.
+    assert (HU : umask (p_db p) rows = map (fun r => covered (done ++ [p]) (fst r)) rows).
+    { unfold umask. apply map_ext_in. intros r Hr. now rewrite covered_snoc, (H1 r Hr). }
+    assert (HcU : ctrue (umask (p_db p) rows) = ncovered (done ++ [p])).
+    { rewrite HU. unfold ncovered. rewrite filter_length_ctrue, Hks, map_map. reflexivity. }
+    rewrite <- !count_ctrue with (w := W) (sc := MS) in F1, F2.
+    pose proof (ctrue_le_umask (p_db p) ht rows) as Hle. rewrite <- count_ctrue with (w := W) (sc := MS) in Hle.
+    assert (Hc' : (CNT rows' <= m)%nat /\ Inv rows' (done ++ [p])).
+    { destruct (Nat.le_gt_cases (ctrue (umask (p_db p) rows) - CNT rows) (m - CNT rows)) as [Hd|Hd].
+      - specialize (F1 Hd).
+        assert (Hpt : forall r, In r rows' -> is_signed r = covered (done ++ [p]) (fst r)).
+        { apply map_ext_in_iff.
+          transitivity (map (covered (done ++ [p])) (map fst rows')); [|now rewrite map_map].
+          rewrite F1, HU, <- Hks', Hks, map_map. reflexivity. }
+        assert (Hcnt : CNT rows' = ncovered (done ++ [p])) by now apply phase1_count.
+        split; [lia|]. destruct (Nat.eq_dec (CNT rows') m) as [E|E]; [right; lia | left; split; [exact Hpt | lia]].
+      - specialize (F2 ltac:(lia)). rewrite <- count_ctrue with (w := W) (sc := MS) in F2.
+        split; [lia | right; lia]. }
+    destruct Hc' as [Hc' HI'].
+    split; [|split; [apply repr_render; [exact Hks' | now apply rows_P_ok | exact Hc'] | auto]].
+    eapply sign_generic; eauto; [now apply ms_ok_shape | destruct Hms; eapply no_clash_of_excl; eauto
+                                | now destruct Hht | rewrite HevL; apply Nat.eqb_neq; lia].
+  - (* already valid: skipped *)
+    exists rows, st. split; [|split; [constructor; eauto | split; [exact Hks | split; [exact HP | split; [exact Hc|]]]]].
+    + unfold sign_input. rewrite HevL. replace (CNT rows =? m)%nat with true by lia. now destruct st.
+    + right. split; [exact H1|]. etransitivity; [exact H2|]. unfold ncovered. apply filter_length_mono.
+      intros k Hk. rewrite covered_snoc, Hk. reflexivity.
+Qed.
+
+Lemma run_invariant passes : forall rows st done,
+  Repr rows st -> ks = map fst rows -> rows_P rows -> (CNT rows <= m)%nat -> Inv rows done ->
+  Forall pass_ok passes ->
+  exists rows' st', run passes st = Ret st' /\ Repr rows' st' /\ ks = map fst rows' /\ rows_P rows' /\
+                    (CNT rows' <= m)%nat /\ Inv rows' (done ++ passes).
+Proof.
+  induction passes as [|p r IH]; intros rows st done HR Hks HP Hc HI Hall.
+  - exists rows, st. rewrite app_nil_r. cbn [run]. auto 10.
+  - inversion Hall as [|? ? Hp Hr]; subst.
+    destruct (step rows st done p HR Hks HP Hc HI Hp) as (rows1 & st1 & Hs & HR1 & Hks1 & HP1 & Hc1 & HI1).
+    destruct (IH rows1 st1 (done ++ [p]) HR1 Hks1 HP1 Hc1 HI1 Hr) as (rows2 & st2 & Hrun & H2).
+    exists rows2, st2. cbn [run]. rewrite Hs. rewrite <- app_assoc in H2. cbn [app] in H2. auto.
+Qed.
+
+(* partial signing in any order: after any sequence of passes the input validates exactly when at least m
+   listed keys have been supplied (to some pass) *)
+Theorem partial_signing_order_free passes : Forall pass_ok passes ->
+  exists st, run passes ([], []) = Ret st /\
+  (eval_input hash160 sha256 verifies sighash fl0 PZ (fst st) (snd st) = true <-> (m <= ncovered passes)%nat).
+Proof.
+  intros Hall. destruct rows0_facts as (I1 & I2 & I3 & I4 & I5 & I6).
+  assert (HI0 : Inv rows0 []).
+  { left. split; [intros r Hr; now rewrite (I6 r Hr) | rewrite I4; destruct Hms; lia]. }
+  destruct (run_invariant passes rows0 ([], []) [] repr_empty I1 I5 ltac:(rewrite I4; lia) HI0 Hall)
+    as (rows' & st' & Hrun & [_ _ Hev] & Hks' & HP' & Hc' & HI').
+  exists st'. split; [exact Hrun|]. cbn [app] in HI'.
+  rewrite Hev; [now apply inv_verdict | now apply rows_P_enc | exact Hpub0].
+Qed.
+End Passes.
+
+(* ---- all listed keys supplied at once: the produced multisig input validates -------------------------- *)
+Definition std_hash_type (t : N) : Prop := In t [1; 2; 3; 129; 130; 131].
+
+Theorem ms_validates fl forkid kd m ks db hto p2sh :
+  ms_shape kd m ks -> p2sh_ok kd m ks p2sh -> db_ok db ks ->
+  (forall k, In k ks -> avail hash160 pub_of db k = true) ->
+  ht_ok sighash (kwit kd) (ms_of m ks) (effective_hash_type forkid hto) ->
+  (f_std fl = true -> f_strictenc fl = true -> std_hash_type (effective_hash_type forkid hto)) ->
+  (forall k, In k ks -> pub_enc_ok fl (kwit kd) (pub pub_of k) = true) ->
+  exists st, sign_input hash160 sha256 verifies sign pub_of sighash db p2sh forkid (pz_ms kd m ks) hto [] [] = Ret st /\
+             eval_input hash160 sha256 verifies sighash fl (pz_ms kd m ks) (fst st) (snd st) = true.
+Proof.
+  intros Hsh Hp Hdb Hav Hht Hstd Hpub.
+  set (ht := effective_hash_type forkid hto) in *.
+  set (r0 := map (fun k : keyspec => (k, @None N)) ks).
+  destruct (rows0_gen ks (kwit kd) (ms_of m ks)) as (I1 & I2 & I3 & I4 & I5). fold r0 in I1, I2, I3, I4, I5.
+  assert (Hc0 : count sign sighash (kwit kd) (ms_of m ks) r0 = 0%nat) by (unfold count; now rewrite I2).
+  set (rows' := fill hash160 pub_of db ht (m - count sign sighash (kwit kd) (ms_of m ks) r0) r0).
+  exists (render kd m ks rows'). split.
+  - apply (sign_generic kd m ks r0 db hto forkid p2sh [] [] []);
+      [exact Hsh | intros k Hk H; rewrite I3 in H; exact H | exact Hp | exact I1 | lia | exact Hdb | exact Hht
+      | reflexivity | now rewrite I2, I3 | reflexivity | now apply eval_empty].
+  - assert (Hcnt : count sign sighash (kwit kd) (ms_of m ks) rows' = m).
+    { pose proof (fill_masks db ht r0 (m - count sign sighash (kwit kd) (ms_of m ks) r0)) as [_ F2]. cbn zeta in F2.
+      fold rows' in F2. rewrite <- !count_ctrue with (w := kwit kd) (sc := ms_of m ks) in F2.
+      unfold r0 in F2 at 2. rewrite umask_all_avail in F2 by exact Hav. fold r0 in F2.
+      rewrite Hc0 in *. destruct Hsh. rewrite F2 by lia. lia. }
+    assert (HPall : forall k t, In (k, Some t) rows' ->
+              ht_ok sighash (kwit kd) (ms_of m ks) t /\ (f_std fl = true -> f_strictenc fl = true -> std_hash_type t)).
+    { apply fill_forall; [split; assumption|]. intros k t Hin. now destruct (I4 k t). }
+    apply eval_render_full; auto.
+    + unfold rows'. now rewrite fill_fst.
+    + intros k t Hin. now destruct (HPall k t Hin).
+    + intros k t Hin. destruct (HPall k t Hin) as [H1 H2]. now apply sig_enc_blob.
 Qed.
 End MsKinds.
+
+(* ================================================================================================ *)
+(* 8. the single-key kinds: P2PK, P2PKH, P2WPKH, P2SH-P2WPKH                                          *)
+Section Single.
+Variable hash160 : bytes -> bytes.
+Variable sha256 : bytes -> bytes.
+Variable verifies : bytes -> bytes -> bytes -> bool.
+Variable sign : bytes -> bytes -> bytes.
+Variable pub_of : bytes -> bool -> bytes.
+Variable sighash : bool -> N -> bytes -> option bytes.
+
+Hypothesis Hsv : forall se c d, verifies (pub_of se c) d (sign se d) = true.
+Hypothesis Hcanon : forall se d t, strict_der (sign se d ++ [t]) = true /\ low_s (sign se d ++ [t]) = true.
+Hypothesis Hparse : forall se d t, parse_sig_ok (sign se d ++ [t]) = true.
+Hypothesis Hh160 : forall x, length (hash160 x) = 20%nat.
+Hypothesis Hpubwf : forall se, is_compressed (pub_of se true) = true /\ is_uncompressed (pub_of se false) = true.
+
+Notation PUB := (pub pub_of).
+Notation BLOB := (blob sign sighash).
+
+Lemma pub_len k : lenN (PUB k) <= 65.
+Proof.
+  destruct k as [se [|]]; unfold pub; cbn [fst snd]; destruct (Hpubwf se) as [H1 H2].
+  - unfold is_compressed in H1. apply andb_true_iff in H1. destruct H1 as [H1 _]. unfold lenN. lia.
+  - unfold is_uncompressed in H2. apply andb_true_iff in H2. destruct H2 as [H2 _]. unfold lenN. lia.
+Qed.
+
+Lemma blob_len w sc k t : lenN (BLOB w sc k t) <= 73.
+Proof. unfold blob. destruct (sighash w t sc); [|cbn; lia]. apply strict_der_len. apply Hcanon. Qed.
+
+Lemma sig_enc_blob_gen fl w sc k t : ht_ok sighash w sc t ->
+  (f_std fl = true -> f_strictenc fl = true -> In t [1; 2; 3; 129; 130; 131]) ->
+  sig_enc_ok fl (BLOB w sc k t) = true.
+Proof.
+  intros Hok Henc. destruct (blob_ok sign sighash w sc Hparse k t Hok) as (d & Hd & Hb & Hty & Hrl & Hp).
+  rewrite sig_enc_ok_nonempty by (rewrite Hb; destruct (sign (fst k) d); discriminate).
+  destruct (f_std fl) eqn:Es; [|reflexivity].
+  rewrite Hb. destruct (Hcanon (fst k) d (n2b t)) as [-> ->]. cbn [andb].
+  destruct (f_strictenc fl) eqn:Ee; [|reflexivity].
+  rewrite <- Hb. unfold defined_hashtype. rewrite Hty.
+  specialize (Henc eq_refl eq_refl). cbn [In] in Henc.
+  destruct Henc as [<-|[<-|[<-|[<-|[<-|[<-|[]]]]]]]; reflexivity.
+Qed.
+
+Lemma checksig_blob fl w sc k t : ht_ok sighash w sc t ->
+  (f_std fl = true -> f_strictenc fl = true -> In t [1; 2; 3; 129; 130; 131]) ->
+  pub_enc_ok fl w (PUB k) = true ->
+  checksig verifies sighash fl w sc (BLOB w sc k t) (PUB k) = true.
+Proof.
+  intros Hok Henc Hpub. unfold checksig. rewrite sig_enc_blob_gen, Hpub by assumption. cbn [andb].
+  now apply (sv_blob verifies sign pub_of sighash w sc Hsv Hparse).
+Qed.
+
+(* one key, one signature variable, nothing there yet: the signature, when the key is in the lookup *)
+Lemma single_solver w sc k db ht c' :
+  lookup_get db (hash160 (PUB k)) = Some (fst k, c') -> ht_ok sighash w sc ht ->
+  signing_solver hash160 verifies sign sighash db w sc ht 1 [PUB k] [] = Ret [BLOB w sc k ht].
+Proof.
+  intros Hl Hht.
+  pose proof (signing_solver_from hash160 verifies sign pub_of sighash w sc [k] 1%nat db ht) as H.
+  cbn [map] in H. rewrite (H ltac:(intros k0 se c [<-|[]] E; rewrite Hl in E; now injection E as <- _) Hht [] [(k, None)]).
+  - unfold sig_items, real_sigs, count. cbn [dentries length Nat.sub fill]. unfold avail. rewrite Hl.
+    cbn [dentries map snd length Nat.sub repeat app]. reflexivity.
+  - reflexivity.
+  - unfold count. cbn. lia.
+  - intros k0 _ [].
+  - reflexivity.
+Qed.
+
+Definition pz_single (kd : kind) (k : keyspec) : puzzle :=
+  match kd with
+  | K_P2PK => mkPuzzle K_P2PK 1 [PUB k] []
+  | _ => mkPuzzle kd 1 [] (hash160 (PUB k))
+  end.
+Definition is_single_kind (kd : kind) : Prop := kd = K_P2PK \/ kd = K_P2PKH \/ kd = K_P2WPKH \/ kd = K_P2SH_P2WPKH.
+Definition single_wit (kd : kind) : bool := match kd with K_P2WPKH | K_P2SH_P2WPKH => true | _ => false end.
+Definition single_sc (kd : kind) (k : keyspec) : bytes :=
+  match kd with K_P2PK => p2pk_script (PUB k) | _ => p2pkh_script (hash160 (PUB k)) end.
+
+Lemma wit0_h160_len x : lenN (wit0_script (hash160 x)) = 22.
+Proof.
+  unfold wit0_script, push_data, spec_push. pose proof (Hh160 x) as H.
+  destruct (hash160 x) as [|b [|b2 r]] eqn:E; [discriminate|discriminate|].
+  rewrite <- E in *. unfold lenN. rewrite H. cbn [N.of_nat Pos.of_succ_nat Pos.succ N.leb N.compare Pos.compare Pos.compare_cont].
+  cbn [app length]. rewrite H. reflexivity.
+Qed.
+
+Theorem single_validates fl forkid kd k db hto p2sh :
+  is_single_kind kd ->
+  lookup_get db (hash160 (PUB k)) = Some k ->
+  (kd = K_P2SH_P2WPKH ->
+   p2sh_get hash160 sha256 p2sh (hash160 (wit0_script (hash160 (PUB k)))) = Some (wit0_script (hash160 (PUB k)))) ->
+  ht_ok sighash (single_wit kd) (single_sc kd k) (effective_hash_type forkid hto) ->
+  (f_std fl = true -> f_strictenc fl = true -> std_hash_type (effective_hash_type forkid hto)) ->
+  pub_enc_ok fl (single_wit kd) (PUB k) = true ->
+  exists st, sign_input hash160 sha256 verifies sign pub_of sighash db p2sh forkid (pz_single kd k) hto [] [] = Ret st /\
+             eval_input hash160 sha256 verifies sighash fl (pz_single kd k) (fst st) (snd st) = true.
+Proof.
+  intros Hkd Hl Hp Hht Hstd Hpub.
+  set (ht := effective_hash_type forkid hto) in *.
+  assert (Hl' : lookup_get db (hash160 (PUB k)) = Some (fst k, snd k)) by (now destruct k).
+  pose proof (pub_len k) as Hpl.
+  destruct Hkd as [ -> | [ -> | [ -> | -> ] ] ]; cbn [single_wit single_sc pz_single] in *.
+  - (* P2PK *)
+    pose proof (blob_len false (p2pk_script (PUB k)) k ht) as Hbl.
+    pose proof (checksig_blob fl false _ k ht Hht Hstd Hpub) as Hcs.
+    exists (pushes [BLOB false (p2pk_script (PUB k)) k ht], []). split.
+    + unfold sign_input, eval_input. change (10000 <? lenN (@nil byte)) with false. cbv iota. rewrite parse_pushes_nil.
+      cbn [f_std LAX andb orb negb all_le_520 forallb lenN length N.of_nat N.ltb N.compare pz_kind is_nil eval_p2pk split_last rev].
+      unfold solve_input. cbn [existing_blobs]. rewrite parse_pushes_nil. cbn [pz_kind pz_keys pz_m hd].
+      fold ht. rewrite (single_solver false _ k db ht (snd k) Hl' Hht). reflexivity.
+    + cbn [fst snd]. unfold eval_input.
+      pose proof (lenN_pushes 73 [BLOB false (p2pk_script (PUB k)) k ht] ltac:(lia) ltac:(repeat constructor; lia)) as Hs.
+      change (lenN [BLOB false (p2pk_script (PUB k)) k ht]) with 1 in Hs.
+      replace (10000 <? lenN (pushes [BLOB false (p2pk_script (PUB k)) k ht])) with false by lia.
+      rewrite parse_pushes_pushes by (repeat constructor; lia).
+      replace (all_le_520 [BLOB false (p2pk_script (PUB k)) k ht]) with true
+        by (symmetry; apply all_le_520_forall; repeat constructor; lia).
+      change (lenN [BLOB false (p2pk_script (PUB k)) k ht]) with 1.
+      rewrite andb_false_r. cbn [negb orb N.ltb N.compare Pos.compare Pos.compare_cont pz_kind pz_keys hd is_nil andb].
+      unfold eval_p2pk. cbn [split_last rev app]. change (lenN [BLOB false (p2pk_script (PUB k)) k ht]) with 1.
+      rewrite Hcs. now destruct (f_std fl).
+  - (* P2PKH *)
+    set (h := hash160 (PUB k)) in *.
+    pose proof (blob_len false (p2pkh_script h) k ht) as Hbl.
+    pose proof (checksig_blob fl false _ k ht Hht Hstd Hpub) as Hcs.
+    exists (pushes [BLOB false (p2pkh_script h) k ht; PUB k], []). split.
+    + unfold sign_input, eval_input. change (10000 <? lenN (@nil byte)) with false. cbv iota. rewrite parse_pushes_nil.
+      cbn [f_std LAX andb orb negb all_le_520 forallb lenN length N.of_nat N.ltb N.compare pz_kind is_nil eval_p2pkh split_last rev].
+      unfold solve_input. cbn [existing_blobs]. rewrite parse_pushes_nil. cbn [pz_kind pz_keys pz_m pz_hash].
+      unfold solve_pkh. fold h. rewrite Hl. destruct k as [se c]. cbn [existsb fst snd] in *. change (pub_of se c) with (PUB (se, c)).
+      fold ht. rewrite (single_solver false _ (se, c) db ht c Hl' Hht). reflexivity.
+    + cbn [fst snd]. unfold eval_input.
+      pose proof (lenN_pushes 73 [BLOB false (p2pkh_script h) k ht; PUB k] ltac:(lia) ltac:(repeat constructor; lia)) as Hs.
+      change (lenN [BLOB false (p2pkh_script h) k ht; PUB k]) with 2 in Hs.
+      replace (10000 <? lenN (pushes [BLOB false (p2pkh_script h) k ht; PUB k])) with false by lia.
+      rewrite parse_pushes_pushes by (repeat constructor; lia).
+      replace (all_le_520 [BLOB false (p2pkh_script h) k ht; PUB k]) with true
+        by (symmetry; apply all_le_520_forall; repeat constructor; lia).
+      change (lenN [BLOB false (p2pkh_script h) k ht; PUB k]) with 2.
+      rewrite andb_false_r. cbn [negb orb N.ltb N.compare Pos.compare Pos.compare_cont pz_kind pz_hash is_nil andb].
+      unfold eval_p2pkh. cbn [split_last rev app]. change (lenN [BLOB false (p2pkh_script h) k ht; PUB k]) with 2.
+      fold h. rewrite bytes_eqb_refl, Hcs. now destruct (f_std fl).
+  - (* P2WPKH *)
+    set (h := hash160 (PUB k)) in *.
+    pose proof (blob_len true (p2pkh_script h) k ht) as Hbl.
+    pose proof (checksig_blob fl true _ k ht Hht Hstd Hpub) as Hcs.
+    exists ([], [BLOB true (p2pkh_script h) k ht; PUB k]). split.
+    + unfold sign_input, eval_input. change (10000 <? lenN (@nil byte)) with false. cbv iota. rewrite parse_pushes_nil.
+      cbn [f_std LAX andb orb negb all_le_520 forallb lenN length N.of_nat N.ltb N.compare pz_kind is_nil expected_wit_script_sig
+           bytes_eqb eval_witness_part Nat.eqb].
+      unfold solve_input. cbn [existing_blobs]. rewrite parse_pushes_nil. cbn [pz_kind pz_keys pz_m pz_hash].
+      unfold solve_pkh. fold h. rewrite Hl. destruct k as [se c]. cbn [existsb fst snd] in *. change (pub_of se c) with (PUB (se, c)).
+      fold ht. rewrite (single_solver true _ (se, c) db ht c Hl' Hht). reflexivity.
+    + cbn [fst snd]. unfold eval_input. change (10000 <? lenN (@nil byte)) with false. cbv iota. rewrite parse_pushes_nil.
+      rewrite andb_false_r.
+      cbn [negb orb all_le_520 forallb lenN length N.of_nat N.ltb N.compare pz_kind expected_wit_script_sig bytes_eqb andb].
+      unfold eval_witness_part. cbn [pz_kind pz_hash length Nat.eqb andb].
+      replace (all_le_520 [BLOB true (p2pkh_script h) k ht; PUB k]) with true
+        by (symmetry; apply all_le_520_forall; repeat constructor; lia).
+      cbn [andb]. unfold eval_p2pkh. cbn [split_last rev app]. change (lenN [BLOB true (p2pkh_script h) k ht; PUB k]) with 2.
+      fold h. rewrite bytes_eqb_refl, Hcs. reflexivity.
+  - (* P2SH-P2WPKH *)
+    set (h := hash160 (PUB k)) in *. specialize (Hp eq_refl).
+    pose proof (blob_len true (p2pkh_script h) k ht) as Hbl.
+    pose proof (checksig_blob fl true _ k ht Hht Hstd Hpub) as Hcs.
+    pose proof (wit0_h160_len (PUB k)) as Hw. fold h in Hw.
+    assert (Hpp : pushes [wit0_script h] = push_data (wit0_script h)) by (unfold pushes; cbn [flat_map]; apply app_nil_r).
+    exists (pushes [wit0_script h], [BLOB true (p2pkh_script h) k ht; PUB k]). split.
+    + unfold sign_input, eval_input. change (10000 <? lenN (@nil byte)) with false. cbv iota. rewrite parse_pushes_nil.
+      cbn [f_std LAX andb orb negb all_le_520 forallb lenN length N.of_nat N.ltb N.compare pz_kind pz_hash is_nil expected_wit_script_sig].
+      pose proof (push_data_nonempty (wit0_script h)) as Hne.
+      destruct (push_data (wit0_script h)) as [|pb pl] eqn:Epd; [cbn in Hne; lia|]. cbn [bytes_eqb andb].
+      unfold solve_input. cbn [existing_blobs]. rewrite parse_pushes_nil. cbn [pz_kind pz_keys pz_m pz_hash].
+      rewrite Hp. unfold solve_pkh. fold h. rewrite Hl. destruct k as [se c]. cbn [existsb fst snd] in *. change (pub_of se c) with (PUB (se, c)).
+      fold ht. rewrite (single_solver true _ (se, c) db ht c Hl' Hht). reflexivity.
+    + cbn [fst snd]. unfold eval_input.
+      pose proof (push_data_length (wit0_script h) ltac:(lia)) as Hpl2.
+      replace (10000 <? lenN (pushes [wit0_script h])) with false by (rewrite Hpp; lia).
+      rewrite parse_pushes_pushes by (repeat constructor; lia).
+      replace (all_le_520 [wit0_script h]) with true by (symmetry; apply all_le_520_forall; repeat constructor; lia).
+      change (lenN [wit0_script h]) with 1.
+      rewrite andb_false_r. cbn [negb orb N.ltb N.compare Pos.compare Pos.compare_cont pz_kind pz_hash expected_wit_script_sig].
+      rewrite Hpp, bytes_eqb_refl. cbn [andb].
+      unfold eval_witness_part. cbn [pz_kind pz_hash length Nat.eqb andb].
+      replace (all_le_520 [BLOB true (p2pkh_script h) k ht; PUB k]) with true
+        by (symmetry; apply all_le_520_forall; repeat constructor; lia).
+      cbn [andb]. unfold eval_p2pkh. cbn [split_last rev app]. change (lenN [BLOB true (p2pkh_script h) k ht; PUB k]) with 2.
+      fold h. rewrite bytes_eqb_refl, Hcs. reflexivity.
+Qed.
+End Single.
+
+(* ================================================================================================ *)
+(* 9. frame: Solver.sign touches only requested inputs that are not already valid                     *)
+Section Frame.
+Variable hash160 : bytes -> bytes.
+Variable sha256 : bytes -> bytes.
+Variable verifies : bytes -> bytes -> bytes -> bool.
+Variable sign : bytes -> bytes -> bytes.
+Variable pub_of : bytes -> bool -> bytes.
+Variable sighash_tx : nat -> bool -> N -> bytes -> option bytes.
+Variable db : lookup.
+Variable p2sh : list bytes.
+Variable forkid : bool.
+Variable ht : option N.
+Notation STF := (sign_tx_from hash160 sha256 verifies sign pub_of sighash_tx db p2sh forkid ht).
+
+Lemma existsb_eqb_in i idxs : existsb (Nat.eqb i) idxs = true <-> In i idxs.
+Proof.
+  rewrite existsb_exists. split.
+  - intros (x & Hx & E). apply Nat.eqb_eq in E. now subst.
+  - intros H. exists i. split; [exact H | apply Nat.eqb_refl].
+Qed.
+
+Lemma sign_tx_from_frame inputs : forall i idxs,
+  length (fst (STF i idxs inputs)) = length inputs /\
+  forall j pz ss w, nth_error inputs j = Some (pz, ss, w) ->
+    (~ In (i + j)%nat idxs \/ eval_input hash160 sha256 verifies (sighash_tx (i + j)%nat) LAX pz ss w = true) ->
+    nth_error (fst (STF i idxs inputs)) j = Some (ss, w).
+Proof.
+  induction inputs as [|[[pz ss] w] r IH]; intros i idxs.
+  - split; [reflexivity|]. intros [|j]; discriminate.
+  - cbn [sign_tx_from].
+    assert (Hmap : forall l : list txin_state,
+              length (map (fun '(_, s, x) => (s, x)) l) = length l /\
+              forall j pz0 ss0 w0, nth_error l j = Some (pz0, ss0, w0) ->
+                nth_error (map (fun '(_, s, x) => (s, x)) l) j = Some (ss0, w0)).
+    { intros l. split; [apply map_length|]. intros j pz0 ss0 w0 Hn.
+      revert j Hn. induction l as [|[[p0 s0] x0] l IHl]; intros [|j] Hn; try discriminate; cbn [map nth_error] in *.
+      - now injection Hn as <- <- <-.
+      - now apply IHl. }
+    destruct (IH (S i) idxs) as [IH1 IH2].
+    assert (Hshift : forall j, (S i + j = i + S j)%nat) by (intros; lia).
+    destruct (existsb (Nat.eqb i) idxs) eqn:Ei.
+    + destruct (sign_input hash160 sha256 verifies sign pub_of (sighash_tx i) db p2sh forkid pz ht ss w) as [sw|e0|] eqn:Es.
+      * destruct (STF (S i) idxs r) as [rs e] eqn:Er. cbn [fst] in *. split; [cbn [length]; now rewrite IH1|].
+        intros [|j] pz0 ss0 w0 Hn Hc; cbn [nth_error] in *.
+        -- injection Hn as <- <- <-. rewrite Nat.add_0_r in Hc. destruct Hc as [Hc|Hc].
+           ++ exfalso. apply Hc. now apply existsb_eqb_in.
+           ++ unfold sign_input in Es. rewrite Hc in Es. now injection Es as <-.
+        -- apply (IH2 j pz0 ss0 w0 Hn). now rewrite Hshift.
+      * cbn [fst]. destruct (Hmap r) as [M1 M2]. split; [cbn [length]; now rewrite M1|].
+        intros [|j] pz0 ss0 w0 Hn Hc; cbn [nth_error] in *; [now injection Hn as <- <- <- | now apply (M2 j pz0 ss0 w0)].
+      * cbn [fst]. destruct (Hmap r) as [M1 M2]. split; [cbn [length]; now rewrite M1|].
+        intros [|j] pz0 ss0 w0 Hn Hc; cbn [nth_error] in *; [now injection Hn as <- <- <- | now apply (M2 j pz0 ss0 w0)].
+    + destruct (STF (S i) idxs r) as [rs e] eqn:Er. cbn [fst] in *. split; [cbn [length]; now rewrite IH1|].
+      intros [|j] pz0 ss0 w0 Hn Hc; cbn [nth_error] in *.
+      * now injection Hn as <- <- <-.
+      * apply (IH2 j pz0 ss0 w0 Hn). now rewrite Hshift.
+Qed.
+
+Theorem sign_tx_frame idxs inputs :
+  let res := fst (sign_tx hash160 sha256 verifies sign pub_of sighash_tx db p2sh forkid ht idxs inputs) in
+  length res = length inputs /\
+  forall j pz ss w, nth_error inputs j = Some (pz, ss, w) ->
+    (~ In j idxs \/ eval_input hash160 sha256 verifies (sighash_tx j) LAX pz ss w = true) ->
+    nth_error res j = Some (ss, w).
+Proof. cbn zeta. unfold sign_tx. apply (sign_tx_from_frame inputs 0 idxs). Qed.
+End Frame.
+
+(* ================================================================================================ *)
+(* 10. what acceptance under the standard flag set implies about the unlocking data                  *)
+Section StdShape.
+Variable hash160 : bytes -> bytes.
+Variable sha256 : bytes -> bytes.
+Variable verifies : bytes -> bytes -> bytes -> bool.
+Variable sighash : bool -> N -> bytes -> option bytes.
+
+(* push-only and minimally encoded (SIGPUSHONLY-like shape, MINIMALDATA) *)
+Lemma eval_std_push_only fl pz ss w : f_std fl = true ->
+  eval_input hash160 sha256 verifies sighash fl pz ss w = true ->
+  exists items, parse_pushes ss = Some (items, true) /\ all_le_520 items = true.
+Proof.
+  intros Hs. unfold eval_input. destruct (10000 <? lenN ss); [discriminate|].
+  destruct (parse_pushes ss) as [[items mn]|]; [|discriminate].
+  rewrite Hs. destruct mn; cbn [andb negb orb]; [|discriminate].
+  destruct (all_le_520 items) eqn:E520; cbn [negb orb]; [|discriminate]. intros _. exists items. split; [reflexivity | exact E520].
+Qed.
+
+(* CLEANSTACK and NULLDUMMY: the multisig template leaves nothing but an empty dummy and m signatures *)
+Lemma eval_multisig_std_shape fl wit sc m keys st : f_std fl = true ->
+  eval_multisig verifies sighash fl wit true sc m keys st = true ->
+  exists sigs, st = [] :: sigs /\ length sigs = m.
+Proof.
+  intros Hs. unfold eval_multisig. rewrite Hs.
+  intros H. apply andb_true_iff in H. destruct H as [H1 H2].
+  apply andb_true_iff in H1. destruct H1 as [H1 _].
+  assert (Hlen : (m + 1 <= length st)%nat) by lia.
+  destruct (skipn (length st - (m + 1)) st) as [|dummy sigs] eqn:Esk; [discriminate|].
+  apply andb_true_iff in H2. destruct H2 as [H2 H3]. apply andb_true_iff in H2. destruct H2 as [H2 _].
+  destruct dummy; [|discriminate].
+  destruct (firstn (length st - (m + 1)) st) eqn:Ef; [|discriminate].
+  assert (Hz : (length st - (m + 1) = 0)%nat).
+  { apply (f_equal (@length _)) in Ef. rewrite firstn_length in Ef. cbn in Ef. lia. }
+  rewrite Hz in Esk. cbn [skipn] in Esk. exists sigs. split; [exact Esk|].
+  apply (f_equal (@length _)) in Esk. cbn [length] in Esk. lia.
+Qed.
+End StdShape.
+
+(* ================================================================================================ *)
+(* 11. exceptions escaping Tx.sign                                                                    *)
+Definition pkh_kind (kd : kind) : bool :=
+  match kd with K_P2PKH | K_P2WPKH | K_P2SH_P2WPKH => true | _ => false end.
+
+(* exclusion predicate of known finding resign-stale-pkh-typeerror: a P2PKH-family input whose existing
+   unlocking data holds something that parses as a signature (e.g. a signature made stale by editing the tx) *)
+Definition stale_pkh (pz : puzzle) (ss : bytes) (w : list bytes) : bool :=
+  pkh_kind (pz_kind pz) &&
+  match existing_blobs ss w with Some blobs => existsb parse_sig_ok blobs | None => false end.
+
+Section NoCrash.
+Variable hash160 : bytes -> bytes.
+Variable sha256 : bytes -> bytes.
+Variable verifies : bytes -> bytes -> bytes -> bool.
+Variable sign : bytes -> bytes -> bytes.
+Variable pub_of : bytes -> bool -> bytes.
+Variable sighash : bool -> N -> bytes -> option bytes.
+Variable db : lookup.
+Variable p2sh : list bytes.
+
+Lemma sign_loop_ret w sc ht nvars : ht < 256 -> sighash w ht sc <> None ->
+  forall todo solved acc, exists acc', sign_loop hash160 sign sighash db w sc ht nvars todo solved acc = Ret acc'.
+Proof.
+  intros Hlt Hd. induction todo as [|[o sec] r IH]; intros solved acc; cbn [sign_loop]; [eauto|].
+  destruct (existsb (bytes_eqb sec) solved); [apply IH|].
+  destruct (nvars <=? length acc)%nat; [eauto|].
+  destruct (lookup_get db (hash160 sec)) as [[secret c]|]; [|apply IH].
+  destruct (sighash w ht sc) as [dg|]; [|congruence].
+  replace (256 <=? ht) with false by lia. apply IH.
+Qed.
+
+Lemma signing_solver_ret w sc ht nvars keys blobs : ht < 256 -> sighash w ht sc <> None ->
+  exists sigs, signing_solver hash160 verifies sign sighash db w sc ht nvars keys blobs = Ret sigs.
+Proof.
+  intros Hlt Hd. unfold signing_solver.
+  destruct (find_sigs verifies sighash w sc nvars (rev keys) blobs 0) as [existing solved].
+  destruct (sign_loop_ret w sc ht nvars Hlt Hd (rev (enumerate_from 0 (rev keys))) solved existing) as (acc & ->). eauto.
+Qed.
+
+Theorem sign_input_no_crash_partial forkid pz hto ss w :
+  existing_blobs ss w <> None ->                      (* push-only scriptSig: the contract's domain *)
+  stale_pkh pz ss w = false ->
+  effective_hash_type forkid hto < 256 ->
+  (forall wit sc, sighash wit (effective_hash_type forkid hto) sc <> None) ->
+  exists st, sign_input hash160 sha256 verifies sign pub_of sighash db p2sh forkid pz hto ss w = Ret st.
+Proof.
+  intros Hdom Hst Hlt Hd. set (ht := effective_hash_type forkid hto) in *.
+  unfold sign_input. destruct (eval_input _ _ _ _ _ _ _ _); [eauto|]. fold ht.
+  unfold solve_input. unfold stale_pkh in Hst.
+  destruct (existing_blobs ss w) as [blobs|]; [|congruence].
+  assert (HS : forall wt sc nv keys bl k, exists r,
+            of_outcome (signing_solver hash160 verifies sign sighash db wt sc ht nv keys bl) k = k r).
+  { intros. destruct (signing_solver_ret wt sc ht nv keys bl Hlt (Hd wt sc)) as (sigs & ->). now exists sigs. }
+  assert (HP : forall wt h k, pkh_kind (pz_kind pz) = true ->
+            solve_pkh hash160 verifies sign pub_of sighash db wt h ht blobs k = Unsolved \/
+            exists a b, solve_pkh hash160 verifies sign pub_of sighash db wt h ht blobs k = k a b).
+  { intros wt h k Hk. rewrite Hk in Hst. cbn [andb] in Hst. unfold solve_pkh.
+    destruct (lookup_get db h) as [[secret c]|]; [|now left]. rewrite Hst. right.
+    destruct (HS wt (p2pkh_script h) 1%nat [pub_of secret c] [] (fun sigs => k (hd [] sigs) (pub_of secret c))) as (r & ->). eauto. }
+  destruct (pz_kind pz) eqn:Ek.
+  - destruct (HS false (p2pk_script (hd [] (pz_keys pz))) 1%nat [hd [] (pz_keys pz)] blobs (fun sigs => Solved (pushes sigs) None)) as (r & ->). eauto.
+  - destruct (HP false (pz_hash pz) (fun sig sec => Solved (pushes [sig; sec]) None) eq_refl) as [->|(a & b & ->)]; eauto.
+  - destruct (HS false (ms_script (pz_m pz) (pz_keys pz)) (pz_m pz) (pz_keys pz) blobs (fun sigs => Solved (pushes ([] :: sigs)) None)) as (r & ->). eauto.
+  - destruct (p2sh_get hash160 sha256 p2sh _) as [u|]; [|eauto]. destruct (520 <? lenN u); [eauto|].
+    destruct (HS false (ms_script (pz_m pz) (pz_keys pz)) (pz_m pz) (pz_keys pz) blobs (fun sigs => Solved (pushes ([] :: sigs ++ [u])) None)) as (r & ->). eauto.
+  - destruct (p2sh_get hash160 sha256 p2sh _) as [u|]; [|eauto].
+    destruct (HS true (ms_script (pz_m pz) (pz_keys pz)) (pz_m pz) (pz_keys pz) blobs (fun sigs => Solved [] (Some ([] :: sigs ++ [u])))) as (r & ->). eauto.
+  - destruct (p2sh_get hash160 sha256 p2sh (hash160 _)) as [u1|]; [|eauto].
+    destruct (p2sh_get hash160 sha256 p2sh (sha256 _)) as [u2|]; [|eauto].
+    destruct (HS true (ms_script (pz_m pz) (pz_keys pz)) (pz_m pz) (pz_keys pz) blobs (fun sigs => Solved (pushes [u1]) (Some ([] :: sigs ++ [u2])))) as (r & ->). eauto.
+  - destruct (HP true (pz_hash pz) (fun sig sec => Solved [] (Some [sig; sec])) eq_refl) as [->|(a & b & ->)]; eauto.
+  - destruct (p2sh_get hash160 sha256 p2sh _) as [u|]; [|eauto].
+    destruct (HP true (pz_hash pz) (fun sig sec => Solved (pushes [u]) (Some [sig; sec])) eq_refl) as [->|(a & b & ->)]; eauto.
+Qed.
+End NoCrash.
+
+(* the full statement (no exclusion) and its refutation by a concrete instance *)
+Definition no_crash_statement : Prop :=
+  forall (hash160 sha256 : bytes -> bytes) (verifies : bytes -> bytes -> bytes -> bool) (sign : bytes -> bytes -> bytes)
+         (pub_of : bytes -> bool -> bytes) (sighash : bool -> N -> bytes -> option bytes)
+         (db : lookup) (p2sh : list bytes) (forkid : bool) (pz : puzzle) (hto : option N) (ss : bytes) (w : list bytes),
+  existing_blobs ss w <> None -> effective_hash_type forkid hto < 256 ->
+  (forall wit sc, sighash wit (effective_hash_type forkid hto) sc <> None) ->
+  exists st, sign_input hash160 sha256 verifies sign pub_of sighash db p2sh forkid pz hto ss w = Ret st.
+
+Lemma no_crash_refuted : ~ no_crash_statement.
+Proof.
+  intros H.
+  specialize (H (fun x => x) (fun x => x) (fun _ _ _ => false) (fun _ _ => []) (fun se _ => se) (fun _ _ _ => Some [])
+                [([x01], ([x01], true))] [] false (mkPuzzle K_P2PKH 1 [] [x01]) None
+                (push_data gen_c05_placeholder ++ push_data [x02]) []).
+  destruct H as (st & Hst).
+  - vm_compute. discriminate.
+  - vm_compute. reflexivity.
+  - intros; discriminate.
+  - vm_compute in Hst. discriminate.
+Qed.
